@@ -97,7 +97,7 @@ ExactBin(name, a, b) ==
       ms == Abs(x8) <= 16384 /\ Abs(y8) <= 16384
   IN IF ~Exact(a) \/ ~cb[1] \/ (a.t = "Boolean" /\ name \notin ({"And", "Or", "Xor"} \cup CmpNames)) THEN no
      ELSE CASE name = "Add" -> yes(x8 + y8)
-            [] name = "Sub" -> (IF a.t = "DateTime" THEN (IF Abs(x - y) < 1000000 THEN yes(8 * 1000 * (x - y)) ELSE no) ELSE yes(x8 - y8))
+            [] name = "Sub" -> (IF a.t = "DateTime" THEN (IF Abs(x - y) <= 1000 THEN yes(8 * 1000 * (x - y)) ELSE no) ELSE yes(x8 - y8))
             [] name = "Mul" -> (IF ~ms THEN no ELSE IF int THEN yes(8 * x * y) ELSE IF (x8 * y8) % 8 = 0 THEN yes((x8 * y8) \div 8) ELSE no)
             [] name = "Div" -> (IF y8 = 0 \/ ~ms THEN no ELSE IF int THEN yes(8 * TruncDiv(x, y))
                                 ELSE IF (x8 * 8) % Abs(y8) = 0 THEN yes(TruncDiv(x8 * 8, y8)) ELSE no)
